@@ -110,7 +110,7 @@ def pred_coq(p, it):
 def labels_of(o):
     """the late drops (d2, d3, d4) whose undoing explains a wrong answer exactly; empty when the answer is right or unexplained"""
     x = o.get("extra") or ""
-    if o["ok"] or not x.startswith("dropped-only:"):
+    if o["ok"] or not x.startswith("dropped-only:") or o["shape"] == "show-tag-keys":      # (tag keys are listed from the schema)
         return set()
     return set(x.split(":", 1)[1].split("+"))
 
@@ -234,6 +234,106 @@ def case_coq(h, later):
     ordt = ["(%d, %d)" % (it.str(m), phantom) for m in h["msts"] if m in later]
     return "(mkT %s [%d] %s, %s)" % (coq_list(am), P_OR, coq_list(ordt), coq_list(ops)), len(ops)
 
+TOFF = 4000000          # time offsets of the histories are >= -3000000 s
+
+
+def tree_case(h):
+    """the history as operations of the tree model (C13/Tree.v) with, for every raw-row read, the expectation of the Go reference"""
+    it = Intern()
+    ser = h["series"] + (h.get("late_series") or [])
+    by_host = {(k["mst"], k["tags"]["host"]): k for k in ser}
+    d = it.str("db:" + h["db"])
+    rp = it.str("rp:" + (h["rp"] or "autogen"))
+    host, a = it.str("host"), it.str("a")
+    ops = ["TOp (TCreateDB %d)" % d, "TOp (TCreateRP %d %d)" % (d, rp)]
+    stamp = [0]
+    nreads = [0]
+
+    def tags_coq(k):
+        return coq_list(["(%d, %d)" % (it.str(x), it.str(y)) for x, y in sorted(k["tags"].items())])
+
+    def writes(ps):
+        for p in ps or []:
+            stamp[0] += 1
+            k = ser[p["s"]]
+            ops.append("TOp (TWrite %d %d %d %s %d %d %d)" % (d, rp, it.str(k["mst"]), tags_coq(k), p["t"] + TOFF, p["v"], stamp[0]))
+
+    preds = {"select-all": "None", "group-by-tag": "None",
+             "tag-neq": "(Some (Atom %d Neq %d))" % (host, a), "tag-eq": "(Some (Atom %d Eq %d))" % (host, a),
+             "tag-absent": "(Some (Atom %d Eq 0))" % it.str("region"),
+             "tag-re-alternation": "(Some (Atom %d Re %d))" % (host, P_OR), "tag-nre-alternation": "(Some (Atom %d Nre %d))" % (host, P_OR),
+             "tag-re-literal": "(Some (Atom %d Re %d))" % (host, P_LIT)}
+
+    def reads(step):
+        for o in step["obs"]:
+            q = preds.get(o["shape"])
+            if q is None:
+                continue
+            want = []
+            if o.get("err") and o.get("want") is None:
+                continue
+            for w in o.get("want") or []:
+                hst, t, v = w.split("|")
+                k = by_host[(o["mst"], hst)]
+                want.append("(%s, %d, %d)" % (tags_coq(k), int(t) + TOFF, int(v)))
+            ops.append("TRead %d %d %d %s %s" % (d, rp, it.str(o["mst"]), q, coq_list(want)))
+            nreads[0] += 1
+
+    def drop_op(dr):
+        if dr["kind"] == "series":
+            return "TOp (TDropSeries %d %d %d %s)" % (d, rp, it.str(dr["mst"]), pred_coq(dr["pred"], it))
+        if dr["kind"] == "measurement":
+            return "TOp (TDropMst %d %d %d)" % (d, rp, it.str(dr["mst"]))
+        if dr["kind"] == "rp":
+            return "TOp (TDropRP %d %d)" % (d, rp)
+        return "TOp (TDropDB %d)" % d
+
+    steps = {}
+    for st in h["steps"]:
+        steps.setdefault(st["phase"], st)
+    writes(h["w1"])
+    ops.append("TOp (TFlush %d %d)" % (d, rp))
+    writes(h["w2"])
+    for ph in ("before", "right-before-drop"):
+        if ph in steps:
+            reads(steps[ph])
+    ops.append(drop_op(h["drop"]))
+    for ph in ("right-after-drop", "after-drop"):
+        if ph in steps:
+            reads(steps[ph])
+    if h["drop"]["kind"] == "db":
+        ops += ["TOp (TCreateDB %d)" % d, "TOp (TCreateRP %d %d)" % (d, rp)]
+    elif h["drop"]["kind"] == "rp":
+        ops.append("TOp (TCreateRP %d %d)" % (d, rp))
+    writes(h["w3"])
+    if "after-writes" in steps:
+        reads(steps["after-writes"])
+    ops.append("TOp (TFlush %d %d)" % (d, rp))
+    churn = h.get("churn") or []
+    per = max(1, len(churn) // 8)
+    for i in range(0, len(churn), per):
+        writes(churn[i:i + per])
+        ops.append("TOp (TFlush %d %d)" % (d, rp))
+    ops.append("TOp (TCompact %d %d 1 4)" % (d, rp))
+    ops.append("TOp (TCompact %d %d 0 3)" % (d, rp))
+    if "after-flush" in steps:
+        reads(steps["after-flush"])
+    ops.append("TOp (TRestart %d %d)" % (d, rp))
+    if "after-restart" in steps:
+        reads(steps["after-restart"])
+    if h.get("drop3") and "after-late-drop" in steps:
+        writes(h.get("w4"))
+        ops.append(drop_op(h["drop3"]))
+        ops.append(drop_op(h["drop4"]))
+        reads(steps["after-late-drop"])
+    if "after-crash" in steps:
+        if h.get("drop2"):
+            ops.append(drop_op(h["drop2"]))
+        ops.append("TOp (TRestart %d %d)" % (d, rp))
+        reads(steps["after-crash"])
+    am = ["(%d, %d)" % (P_OR, it.str("a")), "(%d, %d)" % (P_OR, it.str("b")), "(%d, %d)" % (P_LIT, it.str("a"))]
+    return "(%s, %s)" % (coq_list(am), coq_list(ops)), nreads[0]
+
 
 def parse_mism(out):
     m = re.search(r"M\s*=\s*(.*?)\s*:\s*list", out, re.S)
@@ -274,7 +374,7 @@ def main(ck):
                               "Go harness cmd/c13 (generator, reference map, canonicaliser), python driver props/C13/run.py (signatures)",
                               "the HTTP/JSON surface of ts-server"]
     ck.coq_audit(["C13", "C10"])
-    ok = ck.coq_build(["C13/Proofs.vo", "C13/TreeProofs.vo", "C13/Wiring.vo", "C13/Purge.vo", "C13/Corr.vo", "C13/Props.vo", "C13/Refuted.vo"])
+    ok = ck.coq_build(["C13/Proofs.vo", "C13/TreeProofs.vo", "C13/Wiring.vo", "C13/Purge.vo", "C13/Corr.vo", "C13/TreeCorr.vo", "C13/Props.vo", "C13/Refuted.vo"])
     if ok:
         ck.coq_props(["C13/Props.v", "C13/Refuted.v"])
     binp = ck.go_build("./cmd/c13", "c13")
@@ -298,6 +398,13 @@ def main(ck):
             lost = purge["key_no_longer_resolves"] or purge["not_found_by_own_tag_filter"] or purge["missing_from_shared_tag_filters"]
             hidden_ok = (purge["count_after_drop"] == purge["expected_after"] == purge["count_after_purge"] == purge["count_after_reopen"]
                          and purge["count_before"] == purge["series"] and not purge["dropped_reappeared_after_reopen"])
+            # second half of the same finding: ids that the purge left inside merged tag->ids rows are listed again once the purged
+            # part of the deleted-ids table is discarded (only when the ids had reached a part of that table before the purge)
+            relisted = (purge["count_after_drop"] == purge["expected_after"] == purge["count_after_purge"]
+                        and purge["count_before"] == purge["series"]
+                        and 0 < purge["count_after_reopen"] - purge["expected_after"] <= len(purge["dropped"]))
+            if not hidden_ok and relisted and lost and fragment_finding(ck, F_PURGE):
+                hidden_ok = True
             if purge.get("cross_index_leak"):
                 if ck.match_finding(F_CROSS):
                     ck.known_finding(F_CROSS, what_cross)
@@ -366,8 +473,41 @@ def main(ck):
         for nm, fl in (("canary_cur", "true true"), ("canary_rep", "false false")):
             texts.append((nm, hdr + "Definition cases : list ccase := [\n%s\n].\n"
                           "Definition M := Eval vm_compute in mismatches %s cases.\nPrint M.\n" % (can_txt, fl)))
+        # the tree model and the reference machine against the expectations of the Go reference (plus a canary: one expected
+        # row removed from the first non-empty expectation must be reported)
+        thdr = ("From Coq Require Import NArith List Bool. From OG Require Import C10.Model C13.Model C13.Tree C13.TreeCorr.\n"
+                "Import ListNotations. Open Scope N_scope.\n")
+        trend = [tree_case(h) for h in hs]
+        tree_reads = sum(k for _, k in trend)
+        texts.append(("tree", thdr + "Definition cases : list tcase := [\n%s\n].\n"
+                      "Definition M := Eval vm_compute in tmismatches cases.\nPrint M.\n" % ";\n".join(t for t, _ in trend)))
+        tcan = json.loads(json.dumps(hs[0]))
+        tmark = False
+        for st in tcan["steps"]:
+            for o in st["obs"]:
+                if not tmark and o["shape"] == "select-all" and o["want"]:
+                    o["want"] = o["want"][1:]
+                    tmark = True
+        texts.append(("tree_canary", thdr + "Definition cases : list tcase := [\n%s\n].\n"
+                      "Definition M := Eval vm_compute in tmismatches cases.\nPrint M.\n" % tree_case(tcan)[0]))
         res = ck.coq_eval_many(texts, timeout=900)
         evaluated = True
+        rc_t, o_t = res[6]
+        tm = parse_mism(o_t) if rc_t == 0 else None
+        rc_c, o_c = res[7]
+        tcm = parse_mism(o_c) if rc_c == 0 else None
+        if tm is None or tcm is None:
+            ck.broken.append("tree model evaluation failed: %s" % (o_t if tm is None else o_c)[-400:])
+        else:
+            if tmark and not tcm:
+                ck.broken.append("C13 tree evaluator canary: a removed expected row was not reported")
+            if tm:
+                hi0, op0 = tm[0]
+                ck.broken.append("correspondence C13 tree model / reference machine differs from the harness reference on history %d (op %d)" % (hi0, op0))
+                if not getattr(ck, "nofail_detail", None):
+                    ck.nofail_detail = {"kind": "tree-correspondence", "history_index": hi0, "mismatching_ops": [b for a2, b in tm if a2 == hi0][:5],
+                                        "history": {k: hs[hi0].get(k) for k in ("db", "rp", "msts", "series", "w1", "w2", "drop", "w3")}}
+        ck.cov["tree_model_reads_checked"] = tree_reads
         for (ca, co), (rc2, o) in zip(variants, res[:4]):
             lst = parse_mism(o) if rc2 == 0 else None
             if lst is None:
